@@ -18,11 +18,8 @@ META = {
                'equality row\'s dual, its basis status is the slack\'s with low/upp exchanged, its IIS flag is the slack\'s with '
                'low/upp exchanged if set and the row\'s otherwise, an unknown slack IIS value raises, presolve sends the reversed '
                'basis status to the slack and "equ" to the row, generic int/double values are copied both ways',
-    'not_decided': 'the link graph itself (which entries exist: CopyLink / One2Many / Many2One over std::deque, autolinking), '
-                   '"exactly one value per original item", CleanUpValueNodes before each transfer (assumed), PresolveSolutionEntry\'s '
-                   'slack computation (ComputeLowerSlack, floating point sum)',
-    'not_under_contract': ['pre::CopyLink / Many2ManyLink / AutoLinkScope', 'ValuePresolverImpl::RunPresolve / RunPostsolve / CleanUpValueNodes',
-                           'RangeCon2Slack::PresolveSolutionEntry (ComputeLowerSlack)', 'ValueNode::SetStr and names'],
+    'not_decided': 'the order in which the links of a model run (RunPresolve / RunPostsolve over link ranges), CopySrcDest of CopyLink, autolinking, "exactly one value per original item" as a whole-graph fact, CleanUpValueNodes being called before each transfer (assumed), PresolveSolutionEntry\'s slack computation (floating-point sum)',
+    'not_under_contract': ['ValuePresolverImpl::RunPresolve / RunPostsolve / CleanUpValueNodes', 'CopyLink::CopySrcDest', 'AutoLinkScope', 'RangeCon2Slack::PresolveSolutionEntry (ComputeLowerSlack)', 'ValueNode::SetStr and names'],
     'assumptions': ['value vectors rendered as (pointer,length); vec.resize(Size()) zero-extends',
                     'target entries are zero (cleaned) before a transfer', 'doubles are not NaN in the order-independence lemma'],
     'trusted_base': [],
@@ -195,6 +192,10 @@ def make_replay(which):
         CopyLink and RangeLinCon2Slack (replay/c04_replay.cc)"""
         import subprocess
         from vp import native
+        if which in ('modelsuffix', 'stages'):
+            drv = native.build_driver('c04_%s_replay.cc' % which, 'c04_%s_replay' % which, native.MP_SOURCES, ['-O0', '-DNDEBUG'])[0]
+            p = subprocess.run([drv], capture_output=True, text=True, timeout=300)
+            return p.returncode == 1, (p.stdout + p.stderr)[-2500:], drv
         if which == 'repeat':
             drv = native.build_driver('c04_repeat_replay.cc', 'c04_repeat_replay', native.MP_SOURCES, ['-O0'])[0]
             p = subprocess.run([drv], capture_output=True, text=True, timeout=300)
@@ -209,7 +210,7 @@ def make_replay(which):
 def harnesses(tier, seed):
     hs = _harnesses(tier, seed)
     for h in hs:
-        h.replay = make_replay('setnum' if 'SetNum' in h.name else 'repeat' if 'CleanUp' in h.name else 'links' if 'AddEntry' in h.name else 'graph')
+        h.replay = make_replay('setnum' if 'SetNum' in h.name else 'repeat' if 'CleanUp' in h.name else 'links' if 'AddEntry' in h.name else 'modelsuffix' if 'ReadModelSuffix' in h.name else 'stages' if ('FromSrc2Dest' in h.name or 'FromDest2Src' in h.name) else 'graph')
     return hs
 
 
@@ -331,6 +332,82 @@ static void vp_set(int node, int idx, int val) {
                    stubs=['ValueNode::GetVal / GetValVec / SetVal (ghost: positions and the witness value; the conflict rule of SetVal is C04.ValueNode.SetNum)'])
 
 
+def h_node_ranges():
+    """ValueNode::Add / Select (the ranges links are built from): Add(n) hands out the n positions after the declared size - disjoint from every
+    range handed out before - and grows the size by n; Select(pos, n) names [pos, pos+n) (pos < 0 counts from the end) and grows the size to
+    cover it, never shrinks it.  Real NodeRange::Assign."""
+    parts = ['#include "mp_shim.h"\nint vp_one;\n#define assert(x) __CPROVER_assert(x, "assert(" #x ") of the source holds")\n', '''
+typedef struct { int beg_, end_; } IndexRange;
+typedef struct { int pvn_; IndexRange ir_; } NodeRange;
+size_t sz_; enum { THIS_NODE = 7 };
+#define R __CPROVER_return_value
+''',
+             Fn(VN, r'void Assign\(ValueNode\* pvn, NodeIndexRange ir\)', 'void NR_Assign(NodeRange *self, int pvn, IndexRange ir)',
+                subst=[(r'(?<![\.\w])(?<!->)pvn_', 'self->pvn_', 1), (r'(?<![\.\w])(?<!->)ir_', 'self->ir_', 1)], label='mp::pre::NodeRange::Assign', nmatches=1),
+             Fn(VN, r'NodeRange Add\(int n=1\)', 'NodeRange Node_Add(int n)',
+                contract='__CPROVER_requires(n >= 0 && sz_ <= 1000000000 && n <= 1000000000) '
+                         '__CPROVER_ensures(R.pvn_ == THIS_NODE && R.ir_.beg_ == (int)__CPROVER_old(sz_) && R.ir_.end_ == (int)__CPROVER_old(sz_) + n && sz_ == __CPROVER_old(sz_) + (size_t)n) __CPROVER_assigns(sz_)',
+                subst=[(r'NodeRange nr;', 'NodeRange nr = {0, {0, 0}};', 1), (r'nr\.Assign\(this, \{([^{}]*)\}\);', r'NR_Assign(&nr, THIS_NODE, (IndexRange){\1});', 1)],
+                label='mp::pre::ValueNode::Add', nmatches=1),
+             Fn(VN, r'NodeRange Select\(int pos, int n=1\)', 'NodeRange Node_Select(int pos, int n)',
+                contract='__CPROVER_requires(n >= 0 && sz_ <= 1000000000 && n <= 1000000000 && pos <= 1000000000 && pos >= -(long)sz_) '
+                         '__CPROVER_ensures(R.pvn_ == THIS_NODE && R.ir_.beg_ == (pos < 0 ? (int)__CPROVER_old(sz_) + pos : pos) && R.ir_.end_ == R.ir_.beg_ + n) '
+                         '__CPROVER_ensures(sz_ == (__CPROVER_old(sz_) < (size_t)R.ir_.end_ ? (size_t)R.ir_.end_ : __CPROVER_old(sz_))) __CPROVER_assigns(sz_)',
+                subst=[(r'NodeRange nr;', 'NodeRange nr = {0, {0, 0}};', 1), (r'nr\.Assign\(this, \{([^{}]*)\}\);', r'NR_Assign(&nr, THIS_NODE, (IndexRange){\1});', 1)],
+                label='mp::pre::ValueNode::Select', nmatches=1),
+             ]
+    ha = 'void harness(void) { vp_one = 1; sz_ = nondet_size_t(); Node_Add(nondet_int()); VP_REACH("normal return"); }\n'
+    hb = 'void harness(void) { vp_one = 1; sz_ = nondet_size_t(); Node_Select(nondet_int(), nondet_int()); VP_REACH("normal return"); }\n'
+    return [Harness('C04.ValueNode.Add', 'C04', parts + [ha], enforce='Node_Add'), Harness('C04.ValueNode.Select', 'C04', parts + [hb], enforce='Node_Select')]
+
+
+def h_read_model_suffix():
+    """FlatBackend::ReadModelSuffix: a suffix that a backend reads for original variables, constraints and objectives at once: each of the
+    three value vectors handed to the value presolver is read from the suffix of ITS OWN item kind (and is empty when the kind is not
+    requested) - values given for constraints never arrive as objective values."""
+    parts = ['#include "mp_shim.h"\nint vp_one;\n#define assert(x) __CPROVER_assert(x, "assert(" #x ") of the source holds")\n',
+             ('enum', 'include/mp/common.h', r'enum Kind \{\s*VAR\s*=', 'suf_Kind_'), '''
+typedef struct { int var, con, obj; } MV;      /* which suffix each vector was read from: 0 = empty, kind + 1 otherwise */
+int g_kind;
+static int msd_kind(void) { return g_kind; }
+static int vp_read(int kind) { return kind + 1; }
+#define R __CPROVER_return_value
+''',
+             Fn('include/mp/flat/backend_flat.h', r'pre::MVOverEl<T> ReadModelSuffix\(const ModelSuffixDef<T>& msd\)', 'MV ReadModelSuffix(void)',
+                contract='__CPROVER_requires(g_kind & (suf_Kind_VAR_BIT | suf_Kind_CON_BIT | suf_Kind_OBJ_BIT)) '
+                         '__CPROVER_ensures(R.var == ((g_kind & suf_Kind_VAR_BIT) ? suf_Kind_VAR + 1 : 0) && R.con == ((g_kind & suf_Kind_CON_BIT) ? suf_Kind_CON + 1 : 0) && '
+                         'R.obj == ((g_kind & suf_Kind_OBJ_BIT) ? suf_Kind_OBJ + 1 : 0)) __CPROVER_assigns()',
+                subst=[(r'msd\.kind\(\)', 'msd_kind()', -1), (r'suf::Kind::', 'suf_Kind_', -1),
+                       (r'BaseBackend::template ReadSuffix<T>\(\s*\{msd\.name\(\),\s*(\w+)\}\s*\)', r'vp_read(\1)', 3), (r'ArrayRef<T>\{\}', '0', 3),
+                       (r'return \{', 'return (MV){', 1)],
+                label='mp::FlatBackend::ReadModelSuffix', nmatches=1),
+             'void harness(void) { vp_one = 1; g_kind = nondet_int(); ReadModelSuffix(); VP_REACH("normal return"); }\n']
+    return Harness('C04.FlatBackend.ReadModelSuffix', 'C04', parts, enforce='ReadModelSuffix', stubs=['BaseBackend::ReadSuffix (ghost: records the item kind it was asked for)'])
+
+
+def h_entry_order(collect):
+    """Many2ManyLink::DistributeFromSrc2Dest / CollectFromDest2Src over a range of link entries: presolve runs the entries in the order they were
+    added, postsolve runs them in the REVERSE order (the image of a later conversion stage must be gathered before the stage that feeds on
+    it), each entry exactly once.  Loop contract; ghost: the entry expected next."""
+    name = 'CollectFromDest2Src' if collect else 'DistributeFromSrc2Dest'
+    parts = ['#include "mp_shim.h"\nint vp_one;\n', '''
+typedef struct { int beg_, end_; } LinkIndexRange;
+int g_beg, g_end, g_expect, g_count;
+static int vp_entry(int i) { __CPROVER_assert(i >= g_beg && i < g_end, "an entry of the link range"); return i; }
+static void vp_transfer(int e) { __CPROVER_assert(e == g_expect, "%s"); g_expect += %s; g_count++; }
+''' % ('postsolve gathers the entries in reverse order of their creation' if collect else 'presolve distributes the entries in the order of their creation', '-1' if collect else '1'),
+             Fn(VL, r'void %s\(LinkIndexRange ir\)' % name, 'void %s(LinkIndexRange ir)' % name,
+                contract='__CPROVER_requires(0 <= ir.beg_ && ir.beg_ <= ir.end_ && ir.end_ <= 1000000000 && g_beg == ir.beg_ && g_end == ir.end_ && g_count == 0 && g_expect == %s) '
+                         '__CPROVER_ensures(g_count == g_end - g_beg) __CPROVER_assigns(g_expect, g_count)' % ('ir.end_ - 1' if collect else 'ir.beg_'),
+                subst=[(r'const auto& br = entries_\[([^\]]*)\];', r'int br = vp_entry(\1);', 1), (r'(?:Collect|Distr)<T>\(br\.first, br\.second\);', 'vp_transfer(br);', 1)],
+                loops={0: ('__CPROVER_assigns(i, g_expect, g_count) __CPROVER_loop_invariant(ir.beg_ <= i && i <= ir.end_ && g_expect == i - 1 && g_count == ir.end_ - i) __CPROVER_decreases(i - ir.beg_)' if collect else
+                           '__CPROVER_assigns(i, g_expect, g_count) __CPROVER_loop_invariant(ir.beg_ <= i && i <= ir.end_ && g_expect == i && g_count == i - ir.beg_) __CPROVER_decreases(ir.end_ - i)')},
+                label='mp::pre::Many2ManyLink::%s<T>' % name, nmatches=1),
+             'void harness(void) { vp_one = 1; LinkIndexRange ir; __CPROVER_assume(0 <= ir.beg_ && ir.beg_ <= ir.end_ && ir.end_ <= 1000000000); g_beg = ir.beg_; g_end = ir.end_; g_count = 0; g_expect = %s; %s(ir); VP_REACH("normal return"); }\n' % ('ir.end_ - 1' if collect else 'ir.beg_', name)]
+    return Harness('C04.Many2ManyLink.' + name, 'C04', parts, enforce=name, loop_contracts=True, expect_loop_obligations=1,
+                   stubs=['Distr / Collect of one entry (ghost: which entry; C04.Many2ManyLink.Distr / Collect)'])
+
+
 VEC = '''
 #include "mp_shim.h"
 int vp_one;
@@ -364,5 +441,5 @@ void harness(void) { vp_one = 1; g_w = nondet_size_t(); g_size = nondet_size_t()
 def _harnesses(tier, seed):
     hs = [h_setnum('int'), h_setnum('double'), h_setnum_order('int'), h_setnum_order('double'), h_reverse()]
     hs += [h_entry(n) for n in ENTRIES]
-    hs += [h_cleanup(False), h_cleanup(True), h_addentry(), h_addentry(copy=True), h_distr(False), h_distr(True)]
+    hs += [h_cleanup(False), h_cleanup(True), h_addentry(), h_addentry(copy=True), h_distr(False), h_distr(True), h_entry_order(False), h_entry_order(True), h_read_model_suffix()] + h_node_ranges()
     return hs
